@@ -117,8 +117,11 @@ func recordsScenario(s *Sim, params map[string]string) {
 			}
 			k := t.Range("layout", 1, 6)
 			b := genBatch(t, o, p.LEO, k, &ts, fmt.Sprintf("p%d-", pi))
-			if b.Magic == 0 && b.Codec != 0 {
-				b.Codec = 0 // the property quantifies over uncompressed format 0 only
+			if b.Magic == 0 && b.Codec != 0 && pi < 2 {
+				// the property quantifies over uncompressed format 0 only; the
+				// Conn path (partition 2) is also given compressed format-0
+				// wrappers, which C02 covers and which cost nothing here
+				b.Codec = 0
 				b.BaseOffset = b.Records[0].Offset
 			}
 			if b.Magic == 1 && b.Codec != 0 && !relGaps && len(b.Records) != k {
@@ -463,11 +466,21 @@ func recordsScenario(s *Sim, params map[string]string) {
 
 	// ---- producers (partition 3)
 	np := t.Range("cfg", 0, 2)
+	// pooled scratch buffers under contention: several producers, each on a
+	// connection of its own, send compressed requests larger than the
+	// connections' write buffers at the same time
+	contend := t.Intn("cfg", 5) == 0
+	if contend {
+		np = 3
+	}
 	keys := [][]byte{nil, {}, []byte("k"), []byte("key-\x00\xff")}
 	vals := [][]byte{nil, {}, []byte("v"), bytes.Repeat([]byte("value "), 40)}
 	for a := 0; a < np; a++ {
 		a := a
 		viaClient := t.Intn("cfg", 2) == 0
+		if contend {
+			viaClient = a == 2 && t.Intn("cfg", 2) == 0
+		}
 		s.Go(fmt.Sprintf("pr%d", a), func() {
 			owner := fmt.Sprintf("records-prod%d", a)
 			var conn *kafka.Conn
@@ -489,6 +502,10 @@ func recordsScenario(s *Sim, params map[string]string) {
 			for i := 0; i < t.Range("work", 1, 4) && !s.Failed(); i++ {
 				k := t.Range("work", 1, 5)
 				big := t.Intn("work", 6) == 0
+				if contend {
+					big = false
+					k = t.Range("work", 60, 300)
+				}
 				if big {
 					// a request of several 64 KiB pages: size, checksum and
 					// count placeholders are patched across page boundaries
@@ -501,6 +518,9 @@ func recordsScenario(s *Sim, params map[string]string) {
 				}
 				var subs []sub
 				codec := t.Intn("work", 5)
+				if contend && codec == 0 {
+					codec = 1 + t.Intn("work", 3)
+				}
 				if prodCeil < 3 && codec == 4 {
 					codec = 1
 				}
@@ -509,6 +529,17 @@ func recordsScenario(s *Sim, params map[string]string) {
 					if big && j == 0 {
 						// shifts every later field against the page grid
 						sb.val = bytes.Repeat([]byte("p"), t.Range("work", 1, 70000))
+					}
+					if contend {
+						// values no codec shrinks much
+						sb.val = make([]byte, 40+t.Intn("work", 60))
+						x := uint64(t.Intn("work", 1<<30)) + 1
+						for i := range sb.val {
+							x ^= x << 13
+							x ^= x >> 7
+							x ^= x << 17
+							sb.val[i] = byte(x)
+						}
 					}
 					if sb.val != nil && len(sb.val) > 0 {
 						sb.val = append([]byte(fmt.Sprintf("a%di%dj%d|", a, i, j)), sb.val...)
